@@ -770,7 +770,8 @@ def same_fingerprint(a, b, exact=True, tol=1e-9):
         if exact:
             ok = np.array_equal(xf, yf, equal_nan=True)
         else:
-            ok = bool(np.all((np.abs(xf - yf) <= tol * (1 + np.abs(yf))) | (np.isnan(xf) & np.isnan(yf))))
+            with np.errstate(all="ignore"):
+                ok = bool(np.all((xf == yf) | (np.abs(xf - yf) <= tol * (1 + np.abs(yf))) | (np.isnan(xf) & np.isnan(yf))))
         if not ok:
             with np.errstate(all="ignore"):
                 dmax = float(np.nanmax(np.abs(xf - yf))) if xf.size else 0.0
